@@ -370,3 +370,23 @@ def _chk_baf(args, res, old):
 contract("cnvlib/vary.py::VariantArray.baf_by_ranges", params=dict(varr=ObjT("VariantArray")), bounded=True, gen=_gen_baf,
          call=_call_baf, props=("C18",), checks=[("median_of_mirrored_frequencies_per_range", _chk_baf)],
          notes="a single SNV in a range is returned as it is (into_ranges' single-hit rule, C07)")
+
+
+# ----------------------------------------------------------------------------- deductive: mirroring
+contract(
+    "cnvlib/vary.py::_mirrored_baf",
+    params=dict(vals=SeriesT(Real), above_half=Lit(None, True, False)),
+    returns=SeriesT(Real, like="vals"),
+    requires=[],
+    ensures=[
+        ("rowcount", "len(result) == len(vals)"),
+        # mirrored to one side of 0.5: above when asked (or, by default, when the median lies above), else below
+        ("mirror_side", "forall(0, len(result), lambda k: result[k] == ite("
+                        "above_half is True or (above_half is None and median_of(vals) > 0.5), "
+                        "0.5 + abs(vals[k] - 0.5), 0.5 - abs(vals[k] - 0.5)))"),
+    ],
+    props=("C18",), domain="skip",
+    canaries=[("sides_swapped", "return 0.5 + shift", "return 0.5 - shift"),
+              ("median_ge", "vals.median() > 0.5", "vals.median() < 0.5"),
+              ("no_abs", "(vals - 0.5).abs()", "(vals - 0.5)")],
+)
